@@ -34,7 +34,7 @@ impl<'a> WireFormat<'a> for RouteThrough<'a> {
     where
         Self: Sized,
     {
-        let preference = u16::from_be_bytes(data[*position..*position + 2].try_into()?);
+        let preference = u16::from_be_bytes(data.get(*position..*position + 2).ok_or(crate::SimpleDnsError::InsufficientData)?.try_into()?);
         *position += 2;
         let intermediate_host = Name::parse(data, position)?;
 
